@@ -49,7 +49,7 @@ def shard_methods(sh, part):
     import numpy as np
     from outrank.algorithms.synthetic_data_generators.cc_generator import CategoricalClassification
     rng, nprng = sh.rng('m', part), sh.nprng('m', part)
-    reps = 14 if sh.tier == 'quick' else 60
+    reps = 40 if sh.tier == 'quick' else 200
     nmax = 600 if sh.tier == 'quick' else 2000
     for t in range(reps):
         cc = CategoricalClassification(seed=rng.randrange(100))
@@ -129,6 +129,13 @@ def shard_methods(sh, part):
             info = cc.dataset_info['combinations'][-1]
             sh.check('info-indices', info['combination_ix'] == nf and list(info['feature_indices']) == ids and info['combination_type'] == tname, 'dataset_info:combination-record-wrong', lambda: {'info': repr(info), 'expected_ix': nf, 'expected_type': tname})
             untouched('generate_combinations')
+            # chained use: a second combination on the grown data set is recorded at the next position
+            ok2, Xm2 = sh.call('combination=function', 'generate_combinations', cc.generate_combinations, Xm, [0, nf], None, 'linear')
+            if ok2:
+                info2 = cc.dataset_info['combinations'][-1]
+                good2 = Xm2.shape == (n, nf + 2) and bool(np.allclose(Xm2[:, nf + 1].astype(float), Xm[:, 0].astype(float) + Xm[:, nf].astype(float), atol=1e-9))
+                sh.check('combination=function', good2, 'chained-combination!=stated-function', lambda: {'got_head': Xm2[:6, nf + 1].tolist()})
+                sh.check('info-indices', info2['combination_ix'] == nf + 1 and len(cc.dataset_info['combinations']) == 2, 'dataset_info:chained-combination-record-wrong', lambda: {'info': repr(cc.dataset_info['combinations'])})
             sh.case(('combination', n, kind, repr(ids)), True, 'combination/' + kind)
 
         # ---- labels ------------------------------------------------------------------------------
@@ -182,6 +189,8 @@ def shard_methods(sh, part):
         k = rng.choice([2, 3])
         if n >= 8:
             y = (nprng.permutation(n) % k).astype(int)
+            if rng.random() < 0.35:
+                y = np.sort(y)                      # data sets are often stored sorted by label
             level = rng.choice([0.0, 0.05, 0.2, 0.5, 0.9])
             ok, Xn = sh.call('noise-budget-own-domain', 'generate_noise', cc.generate_noise, X, y, level, 'categorical')
             if ok:
